@@ -36,11 +36,6 @@ impl<T> std::ops::Deref for Root<T> {
     #[verifier::external_body]
     fn deref(&self) -> (r: &T) ensures *r == self.obj() { unimplemented!() }
 }
-// a freshly allocated cell is none of the cells the cache already roots (allocator: live cells are distinct)
-pub broadcast axiom fn axiom_id_determines_obj(a: Root<ObjRange>, b: Root<ObjRange>)
-    requires #[trigger] a.id() == #[trigger] b.id()
-    ensures a.obj() == b.obj();
-
 #[verifier::external_body]
 pub struct Instant { _p: u8 }
 #[verifier::external_body]
@@ -80,19 +75,31 @@ impl ClassStore {
 //@struct file=yarel/src/vm.rs name=Vm keepfields=class_store,range_cache map "CoreClassStore" => "ClassStore" map "time::Instant" => "Instant"
 
 impl Vm {
+    // Allocation (memory.rs Root::new): the new cell is none of the cells the cache currently roots (live cells are
+    // distinct — allocator assumption, placed here because only the VM knows what it roots)
+    #[verifier::external_body]
+    fn alloc_range(&self, data: ObjRange) -> (r: Root<ObjRange>)
+        ensures r.obj() == data, forall|i: int| 0 <= i < self.range_cache@.len() ==> (#[trigger] self.range_cache@[i]).0.id() != r.id(),
+    { unimplemented!() }
+
     // the cache never holds more than the configured 8 roots (so at most 8 ranges are pinned by it)
-    pub open spec fn cache_ok(&self) -> bool { self.range_cache@.len() <= 8 }
+    pub open spec fn cache_ok(&self) -> bool {
+        &&& self.range_cache@.len() <= 8
+        // each cached root designates its own heap cell
+        &&& forall|i: int, j: int| 0 <= i < self.range_cache@.len() && 0 <= j < self.range_cache@.len() && (#[trigger] self.range_cache@[i]).0.id() == (#[trigger] self.range_cache@[j]).0.id() ==> i == j
+    }
 
     //@fn file=yarel/src/vm.rs path=Vm::build_range ret=r props=C16,C18
     //@  subst "self .range_cache .iter() .find(|&(r, _)| r.begin == begin && r.end == end)" => "cache_find(&self.range_cache, begin, end)"
     //@  subst "self .range_cache .iter() .enumerate() .max_by(|first, second| first.1 .1.elapsed().cmp(&second.1 .1.elapsed())) .map(|e| e.0) .expect(\"Expect to find max given non-empty Vec.\")" => "cache_oldest(&self.range_cache)"
     //@  subst "time::Instant::now()" => "instant_now()"
+    //@  subst "Root::new(ObjRange::new(class, begin, end))" => "self.alloc_range(ObjRange::new(class, begin, end))"
     //@  requires old(self).cache_ok()
     //@  ensures! final(self).cache_ok()
     //@  ensures exists|i: int| 0 <= i < final(self).range_cache@.len() && (#[trigger] final(self).range_cache@[i]).0.id() == r.id() && final(self).range_cache@[i].0.obj().begin == begin && final(self).range_cache@[i].0.obj().end == end
-    //@  ensures! forall|i: int, j: int| 0 <= i < old(self).range_cache@.len() && 0 <= j < final(self).range_cache@.len() && (#[trigger] old(self).range_cache@[i]).0.id() == (#[trigger] final(self).range_cache@[j]).0.id() ==> old(self).range_cache@[i].0.obj() == final(self).range_cache@[j].0.obj()
+    //@  ensures! forall|i: int, j: int| 0 <= i < old(self).range_cache@.len() && 0 <= j < final(self).range_cache@.len() && (#[trigger] old(self).range_cache@[i]).0.id() == (#[trigger] final(self).range_cache@[j]).0.id() && final(self).range_cache@[j].0.id() != r.id() ==> old(self).range_cache@[i].0.obj() == final(self).range_cache@[j].0.obj()
+    //@  ensures! (exists|i: int| 0 <= i < old(self).range_cache@.len() && (#[trigger] old(self).range_cache@[i]).0.id() == r.id()) ==> final(self).range_cache@ == old(self).range_cache@ && (forall|i: int| 0 <= i < old(self).range_cache@.len() ==> (#[trigger] final(self).range_cache@[i]).0.obj() == old(self).range_cache@[i].0.obj())
     //@  ensures! final(self).range_cache@.len() >= old(self).range_cache@.len()
-    //@  at body.start broadcast use axiom_id_determines_obj;
     //@  after_stmt "self.range_cache[stale_pos] =" proof { assert(self.range_cache@[stale_pos as int].0.id() == range_gc.id()); }
     //@  after_stmt "self.range_cache.push(" proof { assert(self.range_cache@[self.range_cache@.len() - 1].0.id() == range_gc.id()); }
     //@end
